@@ -102,6 +102,7 @@ class Program:
         self.adts = {}
         self.consts = {}
         self.impls = []
+        self.aliases = {}
         files = sorted(f for f in os.listdir(out_dir) if f.endswith(".jsonl"))
         if not files:
             raise BuildFailed("no fact files written")
@@ -123,6 +124,8 @@ class Program:
                         self.adts[crate + "::" + r["path"]] = r
                     elif k == "const":
                         self.consts[crate + "::" + r["path"]] = r
+                    elif k == "alias":
+                        self.aliases[crate + "::" + r["path"]] = r
                     elif k == "impl":
                         r["crate"] = crate; self.impls.append(r)
         if "jiff" not in self.crates:
